@@ -591,7 +591,7 @@ func C13(run *core.Run) {
 	// 2. no-blocking probe
 	for i := 0; i < 3; i++ {
 		run.Eval()
-		switch s := c13Probe(); s {
+		switch s := c13ProbeInChild(run, "block"); s {
 		case "":
 			run.NonTrivial([]byte(fmt.Sprintf("probe %d", i)))
 		case "INCONCLUSIVE":
@@ -601,14 +601,16 @@ func C13(run *core.Run) {
 		}
 	}
 	run.Eval()
-	if s := c13ReRegisterProbe(); s != "" {
+	if s := c13ProbeInChild(run, "rereg"); s == "INCONCLUSIVE" {
+		run.Inconclusive()
+	} else if s != "" {
 		run.Violation(core.Key("probe", []byte(core.Trunc(s, 200))), s, map[string]string{"problem": s})
 	} else {
 		run.NonTrivial([]byte("re-registration probe"))
 	}
 	for i := 0; i < 2; i++ {
 		run.Eval()
-		switch s := c13StreamProbe(); s {
+		switch s := c13ProbeInChild(run, "stream"); s {
 		case "":
 			run.NonTrivial([]byte(fmt.Sprintf("stream probe %d", i)))
 		case "INCONCLUSIVE":
@@ -658,6 +660,29 @@ func C13(run *core.Run) {
 	run.Sample(map[string]interface{}{"operation_mix": "Minify / Bytes (shared read-only input) / String / Reader / Writer / Match+call / MinifyMimetype", "registry": "css/html/svg literal + js/json/xml regexps, shared option structs with non-default values", "goroutines x GOMAXPROCS": "2x1, 8x2, 64x16"})
 	run.Finish("one fully registered registry with shared non-default option structs, a pool of hand-written, generated and re-entrant inputs (HTML->CSS/JS/SVG->CSS, CSS->data URI->SVG) with sequential reference outputs; N goroutines x M operations from the seven-entry operation mix, repeated at three (GOMAXPROCS, goroutine count) settings and in fresh -race processes; a case is one (repetition, setting) / probe / child process; evaluations counts the individual concurrent operations",
 		[]string{"the race detector only reports races that the produced schedules exhibit", "blocking is decided from two identical goroutine dumps of the probe goroutines", "registration concurrent with use is outside the property and not exercised"}, 8, false)
+}
+
+// c13ProbeInChild runs one of the probes in a fresh process (a fatal runtime error such as concurrent map writes
+// cannot be recovered in-process and must not take the check down with it); a child that dies is a violation.
+func c13ProbeInChild(run *core.Run, name string) string {
+	ctx, cancel := context.WithTimeout(context.Background(), 10*time.Minute) // generous watchdog; firing = inconclusive
+	defer cancel()
+	out, _ := exec.CommandContext(ctx, os.Args[0], "c13probe", name).CombinedOutput()
+	text := string(out)
+	if i := strings.Index(text, "PROBE-RESULT:"); i >= 0 {
+		res := text[i+len("PROBE-RESULT:"):]
+		if j := strings.Index(res, "\nPROBE-END"); j >= 0 {
+			res = res[:j]
+		}
+		return strings.TrimSpace(res)
+	}
+	if i := strings.Index(text, "fatal error:"); i >= 0 {
+		return "the process died during the " + name + " probe: " + core.Trunc(text[i:], 1500)
+	}
+	if i := strings.Index(text, "panic:"); i >= 0 {
+		return "the process died during the " + name + " probe: " + core.Trunc(text[i:], 1500)
+	}
+	return "INCONCLUSIVE"
 }
 
 // c13Child runs the workload in a fresh process.
@@ -718,6 +743,18 @@ func init() {
 			}
 		}
 		fmt.Printf("CHILD-OK problems=%d\n", bad)
+	}
+	Children["c13probe"] = func(args []string) {
+		res := ""
+		switch args[0] {
+		case "block":
+			res = c13Probe()
+		case "rereg":
+			res = c13ReRegisterProbe()
+		case "stream":
+			res = c13StreamProbe()
+		}
+		fmt.Printf("PROBE-RESULT:%s\nPROBE-END\n", res)
 	}
 	Children["c13work"] = func(args []string) {
 		var seed uint64
